@@ -164,6 +164,19 @@ func newScratch(p *Prop, withTests bool) (*scratch, map[string][]byte, error) {
 		fmt.Fprintf(&glue, "package %s\n\nimport (\n", p.PkgName)
 		var names []string
 		texts := map[string]string{}
+		{
+			// the types of package host, shared by the harness and the twins
+			sub := filepath.Join(dir, "e2e_hosttypes")
+			os.MkdirAll(sub, 0o755)
+			real := filepath.Join(sub, "types.go")
+			if err := os.WriteFile(real, []byte(e2eHostTypes), 0o644); err != nil {
+				return nil, nil, err
+			}
+			v := filepath.Join(repoDir, p.PkgDir, "e2e_hosttypes", "types.go")
+			sc.overlay[v] = real
+			ov[v] = []byte(e2eHostTypes)
+			sc.genPkgs = append(sc.genPkgs, p.PkgPath+"/e2e_hosttypes")
+		}
 		for _, f := range files {
 			name := strings.TrimSuffix(filepath.Base(f), ".go.txt")
 			b, err := os.ReadFile(f)
@@ -174,7 +187,10 @@ func newScratch(p *Prop, withTests bool) (*scratch, map[string][]byte, error) {
 			texts[name] = string(b)
 			fmt.Fprintf(&glue, "\te2e_%s %q\n", name, p.PkgPath+"/e2e_"+name)
 			twin := strings.Replace(string(b), "package main", "package e2e_"+name, 1)
-			twin = strings.Replace(twin, "import \"host\"", e2eHostDecl, 1)
+			twin = strings.Replace(twin, "import \"host\"", strings.Replace(e2eHostDecl, "HOSTTYPES", p.PkgPath+"/e2e_hosttypes", 1), 1)
+			for _, tn := range []string{"Pair", "Grid", "Named"} {
+				twin = strings.ReplaceAll(twin, "host."+tn, "ht."+tn)
+			}
 			for _, pk := range []string{"fmt", "io", "sort"} {
 				// already imported by the host declarations
 				twin = strings.Replace(twin, "\nimport \""+pk+"\"\n", "\n", 1)
@@ -238,6 +254,24 @@ func newScratch(p *Prop, withTests bool) (*scratch, map[string][]byte, error) {
 		glue.WriteString("}\n\nvar vhTwinBind = map[string]func(map[string]interface{}){\n")
 		for _, n := range names {
 			fmt.Fprintf(&glue, "\t%q: e2e_%s.Bind,\n", n, n)
+		}
+		// what each program exports (functions over ints, int variables): used natively by the harness
+		// on both sides after the program has run (values obtained from the interpreter by Symbols)
+		glue.WriteString("}\n\nvar vhTwinExports = map[string]map[string]interface{}{\n")
+		for _, n := range names {
+			ex := e2eExports(texts[n])
+			if len(ex) == 0 {
+				continue
+			}
+			fmt.Fprintf(&glue, "\t%q: {", n)
+			for _, e := range ex {
+				if e.isVar {
+					fmt.Fprintf(&glue, "%q: &e2e_%s.%s, ", e.name, n, e.name)
+				} else {
+					fmt.Fprintf(&glue, "%q: e2e_%s.%s, ", e.name, n, e.name)
+				}
+			}
+			glue.WriteString("},\n")
 		}
 		glue.WriteString("}\n\nvar vhTwinMain = map[string]func(){\n")
 		for _, n := range names {
@@ -1144,7 +1178,11 @@ const e2eHostDecl = `import (
 	"fmt"
 	"io"
 	"sort"
+
+	ht "HOSTTYPES"
 )
+
+var _ ht.Pair
 
 var host struct {
 	A, B  func() int
@@ -1155,6 +1193,28 @@ var host struct {
 	Read  func(io.Reader)
 	Write func(io.Writer)
 	Copy  func(io.Reader)
+
+	// values of every shape crossing the boundary (property C07)
+	Swap      func(ht.Pair) ht.Pair
+	Scale     func(*ht.Pair, int)
+	NewPair   func(int, int) *ht.Pair
+	SumGrid   func(ht.Grid) int
+	FillGrid  func(*ht.Grid, int)
+	SumSlice  func([]int) int
+	Double    func([]int)
+	Grow      func([]int, int) []int
+	SumMap    func(map[string]int) int
+	SetKey    func(map[string]int, string, int)
+	Var       func(int, ...int) int
+	DivMod    func(int, int) (int, int, error)
+	Apply     func(func(int) int, int) int
+	Compose   func(func(int) int, func(int) int) func(int) int
+	MakeAdder func(int) func(int) int
+	Kinds     func(bool, int8, uint16, string, rune) (int8, uint16, string)
+	SumPairs  func([]ht.Pair) ht.Pair
+	Each      func(map[string]ht.Pair, func(string, ht.Pair))
+	Rename    func(ht.Named) ht.Named
+	Visit     func(func(ht.Pair) (int, error)) int
 }
 
 // Bind connects the program to its inputs and outputs.
@@ -1167,6 +1227,26 @@ func Bind(h map[string]interface{}) {
 	host.Read = h["Read"].(func(io.Reader))
 	host.Write = h["Write"].(func(io.Writer))
 	host.Copy = h["Copy"].(func(io.Reader))
+	host.Swap = h["Swap"].(func(ht.Pair) ht.Pair)
+	host.Scale = h["Scale"].(func(*ht.Pair, int))
+	host.NewPair = h["NewPair"].(func(int, int) *ht.Pair)
+	host.SumGrid = h["SumGrid"].(func(ht.Grid) int)
+	host.FillGrid = h["FillGrid"].(func(*ht.Grid, int))
+	host.SumSlice = h["SumSlice"].(func([]int) int)
+	host.Double = h["Double"].(func([]int))
+	host.Grow = h["Grow"].(func([]int, int) []int)
+	host.SumMap = h["SumMap"].(func(map[string]int) int)
+	host.SetKey = h["SetKey"].(func(map[string]int, string, int))
+	host.Var = h["Var"].(func(int, ...int) int)
+	host.DivMod = h["DivMod"].(func(int, int) (int, int, error))
+	host.Apply = h["Apply"].(func(func(int) int, int) int)
+	host.Compose = h["Compose"].(func(func(int) int, func(int) int) func(int) int)
+	host.MakeAdder = h["MakeAdder"].(func(int) func(int) int)
+	host.Kinds = h["Kinds"].(func(bool, int8, uint16, string, rune) (int8, uint16, string))
+	host.SumPairs = h["SumPairs"].(func([]ht.Pair) ht.Pair)
+	host.Each = h["Each"].(func(map[string]ht.Pair, func(string, ht.Pair)))
+	host.Rename = h["Rename"].(func(ht.Named) ht.Named)
+	host.Visit = h["Visit"].(func(func(ht.Pair) (int, error)) int)
 }`
 
 // e2eChunkSchemes cuts a program text into sequences of chunks for successive Eval calls:
@@ -1262,6 +1342,74 @@ func e2eHistory(path string) []string {
 	for _, c := range strings.Split(string(b), "\n//---\n") {
 		if strings.TrimSpace(c) != "" {
 			out = append(out, c)
+		}
+	}
+	return out
+}
+
+// e2eHostTypes is the package of the types of package host (overlay <pkg>/e2e_hosttypes).
+const e2eHostTypes = `// Package e2e_hosttypes holds the types of the host package of the end-to-end programs.
+package e2e_hosttypes
+
+// Pair is a plain struct passed by value and by pointer.
+type Pair struct{ A, B int }
+
+// Grid is an array type.
+type Grid [2][2]int
+
+// Named is a named basic type.
+type Named int
+`
+
+type e2eExport struct {
+	name  string
+	isVar bool
+}
+
+// e2eExports lists the exported top-level functions of type func(int) int or func(int, int) int
+// and the exported package variables of type int of a program.
+func e2eExports(src string) []e2eExport {
+	fset := token.NewFileSet()
+	f, err := parser.ParseFile(fset, "p.go", src, 0)
+	if err != nil {
+		return nil
+	}
+	isInt := func(e ast.Expr) bool { id, ok := e.(*ast.Ident); return ok && id.Name == "int" }
+	var out []e2eExport
+	for _, d := range f.Decls {
+		switch x := d.(type) {
+		case *ast.FuncDecl:
+			if x.Recv != nil || !x.Name.IsExported() || x.Type.Results == nil || len(x.Type.Results.List) != 1 || !isInt(x.Type.Results.List[0].Type) {
+				continue
+			}
+			n, ok := 0, true
+			for _, p := range x.Type.Params.List {
+				if !isInt(p.Type) {
+					ok = false
+				}
+				k := len(p.Names)
+				if k == 0 {
+					k = 1
+				}
+				n += k
+			}
+			if ok && (n == 1 || n == 2) {
+				out = append(out, e2eExport{name: x.Name.Name})
+			}
+		case *ast.GenDecl:
+			if x.Tok != token.VAR {
+				continue
+			}
+			for _, sp := range x.Specs {
+				vs := sp.(*ast.ValueSpec)
+				if vs.Type != nil && isInt(vs.Type) {
+					for _, id := range vs.Names {
+						if id.IsExported() {
+							out = append(out, e2eExport{name: id.Name, isVar: true})
+						}
+					}
+				}
+			}
 		}
 	}
 	return out
